@@ -507,8 +507,10 @@ func TestRetentionWindow(t *testing.T) {
 			}
 		}
 		// accepted again after expiry
+		var acceptStart time.Time // start of the presentation that was accepted again: the new window cannot begin earlier
 		again := lib.WaitUntil(lib.Live, func() bool {
 			before := calls
+			acceptStart = time.Now()
 			h(message.NewMessage("again", payload))
 			return calls != before
 		})
@@ -517,12 +519,22 @@ func TestRetentionWindow(t *testing.T) {
 			// bound can be missed on a machine that is saturated by other processes
 			again = lib.WaitUntil(6*lib.Live, func() bool {
 				before := calls
+				acceptStart = time.Now()
 				h(message.NewMessage("again", payload))
 				return calls != before
 			})
 			lib.Count("retention-reaccept-slow", 1)
 			if !again {
 				t.Fatalf("violation: key not accepted again within %v although the window is %v", 7*lib.Live, window)
+			}
+		}
+		// the re-acceptance starts a new window: the very next presentations of the key are duplicates again
+		// (conservative, as above: only judged when they finished inside the window counted from the START of the accepted presentation)
+		for k := 0; k < 2; k++ {
+			before := calls
+			h(message.NewMessage("dup-after-reacceptance", payload))
+			if end := time.Now(); end.Before(acceptStart.Add(window)) && calls != before {
+				t.Fatalf("violation: key accepted again %v after the start of the presentation that had just been accepted again (window %v): more than one per window", end.Sub(acceptStart), window)
 			}
 		}
 		lib.Case(fmt.Sprintf("ret|%d|%v", windowMs, offsets), checked > 0, "retention", fmt.Sprintf("checked-in-window=%d", checked))
